@@ -207,7 +207,9 @@ def random_options(r, B, conv, force=None):
         o.uref_kind = "vec"
         o.uref = [0.0, 0.0, 0.0]
     o.conv = conv
-    o.em_filt = 0 if r.random() < 0.5 else 2.0
+    u = r.random()
+    # 150: a print filter no mode passes (empty table, a966639)
+    o.em_filt = 0 if u < 0.45 else 2.0 if u < 0.9 else 150.0
     o.nff = 25 if r.random() < 0.7 else int(r.integers(6, 40))
     return o
 
@@ -670,8 +672,8 @@ def known_defect_cell(B, o, T, tg):
     outputs the defect pollutes."""
     if B.nq == 0:
         return "nq0"
-    if o.reorder and o.pclass == "cycle":
-        return "uset-reorder"
+    # (cbcheck-uset-argsort was repaired in the repository, b4ca5b2: cyclic grid orders
+    # are judged like every other order, without compensation)
     if (not o.reorder) and (not tg["b_first"]) and (T.rb_norm_eff or tg["bref_after_gap"]):
         return "noreorder-indexing"
     return None
